@@ -208,6 +208,67 @@ func CrashImage(base map[string][]byte, events []Event, n int, cut int) map[stri
 	return img
 }
 
+// CrashKeepPending returns the file system a process crash leaves behind after the events [0, n)
+// (plus the first cut bytes of event n when cut > 0): the visible content is what CrashImage gives,
+// but writes and truncations that were not covered by a Sync stay pending (they sit in the page
+// cache), so that a later power failure can still lose them.
+func CrashKeepPending(base map[string][]byte, events []Event, n int, cut int) *FS {
+	evs := append([]Event(nil), events[:min(n, len(events))]...)
+	if cut > 0 && n < len(events) && events[n].Kind == Write {
+		e := events[n]
+		e.Data = append([]byte(nil), e.Data[:min(cut, len(e.Data))]...)
+		evs = append(evs, e)
+	}
+	d := DurabilityAt(base, evs, len(evs))
+	t := FromImage(d.Image(nil, nil))
+	byID := map[int]string{}
+	for name, id := range d.Names {
+		byID[id] = name
+	}
+	// replay the pending operations in their original global order
+	var pend []PendingOp
+	for _, ps := range d.Pending {
+		pend = append(pend, ps...)
+	}
+	sort.Slice(pend, func(i, j int) bool { return pend[i].Index < pend[j].Index })
+	nodeOf := map[int]int{}
+	for id := range d.Pending {
+		nodeOf[id] = id
+	}
+	for _, p := range pend {
+		// find the durability node the event belongs to
+		owner := -1
+		for id, ps := range d.Pending {
+			for _, q := range ps {
+				if q.Index == p.Index {
+					owner = id
+				}
+			}
+		}
+		name, ok := byID[owner]
+		if !ok {
+			continue // the file was removed: its pending data is unreachable
+		}
+		nd := t.names[name]
+		if nd == nil {
+			continue
+		}
+		e := p.Event
+		e.Name = name
+		e.Node = nd.id
+		nd.data = applyData(nd.data, e, -1)
+		t.events = append(t.events, e)
+	}
+	return t
+}
+
+func min(a, b int) int {
+	if a < b {
+		return a
+	}
+	return b
+}
+
 // PendingOp is a write or truncation not yet covered by a Sync of its file.
 type PendingOp struct {
 	Event Event
